@@ -23,3 +23,29 @@ def vfail(x):
 def vterm(*args):
     """uninterpreted function symbol for the C02 term comparison"""
     return ("call", "VTERM", list(args))
+
+
+# ---------------------------------------------------------------- thread gates (C07 real-thread overlap schedules)
+import threading as _threading
+
+GATE = {"on_main": None, "entered": None, "release": None, "main_done": False, "b_done": False}
+
+
+def gate_reset(on_main=None):
+    GATE.update(on_main=on_main, entered=_threading.Event(), release=_threading.Event(), main_done=False, b_done=False)
+
+
+@excel_helper()
+def vgate(x):
+    """identity.  First call on the helper thread ('vf-B'): announce 'inside a formula' and wait to be released.
+    First call on any other thread: run the registered callback (which starts the helper and waits until it is inside)."""
+    if _threading.current_thread().name == "vf-B":
+        if not GATE["b_done"]:
+            GATE["b_done"] = True
+            GATE["entered"].set()
+            if not GATE["release"].wait(30):
+                raise RuntimeError("gate: never released")
+    elif not GATE["main_done"] and GATE["on_main"] is not None:
+        GATE["main_done"] = True
+        GATE["on_main"]()
+    return x
